@@ -252,8 +252,22 @@ func c13Property(t *rapid.T) {
 			r.commitPending()
 			a := drawAcct()
 			v := big.NewInt(int64(rapid.IntRange(0, 1000).Draw(t, "bal")))
-			r.logf("SetBalance(%d,%s)", a, v)
-			r.l.SetBalance(c13Addrs[a], v)
+			bl, relative := interface{}(r.l).(balanceAdjuster)
+			if relative && rapid.Bool().Draw(t, "addSub") {
+				// the relative API (EVM adapter, service registry): the difference to the latest balance
+				cur := r.cur[a].balance
+				switch v.Cmp(cur) {
+				case -1:
+					r.logf("SubBalance(%d,%s)  // %s -> %s", a, new(big.Int).Sub(cur, v), cur, v)
+					bl.SubBalance(c13Addrs[a], new(big.Int).Sub(cur, v))
+				case 1:
+					r.logf("AddBalance(%d,%s)  // %s -> %s", a, new(big.Int).Sub(v, cur), cur, v)
+					bl.AddBalance(c13Addrs[a], new(big.Int).Sub(v, cur))
+				}
+			} else {
+				r.logf("SetBalance(%d,%s)", a, v)
+				r.l.SetBalance(c13Addrs[a], v)
+			}
 			r.cur[a].balance = new(big.Int).Set(v)
 		},
 		"nonce": func(t *rapid.T) {
